@@ -10,6 +10,7 @@ import (
 	"io/fs"
 	"os"
 	"path/filepath"
+	"runtime"
 	"time"
 )
 
@@ -59,13 +60,13 @@ func SetModel(m map[string]uint64) {
 
 func val(name string) uint64 { load(); return model[name] }
 
-func Byte(name string) byte     { return byte(val(name)) }
-func U16(name string) uint16    { return uint16(val(name)) }
-func U32(name string) uint32    { return uint32(val(name)) }
-func U64(name string) uint64    { return val(name) }
-func Int(name string) int       { return int(val(name)) }
-func MathInt(name string) int   { return int(val(name)) }
-func Bool(name string) bool     { return val(name) != 0 }
+func Byte(name string) byte   { return byte(val(name)) }
+func U16(name string) uint16  { return uint16(val(name)) }
+func U32(name string) uint32  { return uint32(val(name)) }
+func U64(name string) uint64  { return val(name) }
+func Int(name string) int     { return int(val(name)) }
+func MathInt(name string) int { return int(val(name)) }
+func Bool(name string) bool   { return val(name) != 0 }
 func Choice(name string, n int) int {
 	v := int(val(name))
 	if v < 0 || v >= n {
@@ -100,6 +101,40 @@ func SetDir(dir string, names []string) {
 			panic(err)
 		}
 	}
+}
+
+// SetFile / RemoveFile / FileContents / FileNames: regular files reached through
+// the os package (a table of path -> bytes under gosym; real files natively).
+func SetFile(path string, data []byte) {
+	if err := os.MkdirAll(filepath.Dir(path), 0700); err != nil {
+		panic(err)
+	}
+	os.Remove(path)
+	if err := os.WriteFile(path, data, 0600); err != nil {
+		panic(err)
+	}
+}
+
+func RemoveFile(path string) { os.Remove(path) }
+
+func FileContents(path string) ([]byte, bool) {
+	b, err := os.ReadFile(path)
+	if err != nil {
+		return nil, false
+	}
+	return b, true
+}
+
+// FileNames lists the regular files whose path starts with prefix (prefix ends in a separator).
+func FileNames(prefix string) []string {
+	var out []string
+	es, _ := os.ReadDir(filepath.Dir(prefix + "x"))
+	for _, e := range es {
+		if !e.IsDir() {
+			out = append(out, prefix+e.Name())
+		}
+	}
+	return out
 }
 
 // DirInfo is the fs.FileInfo gosym returns from os.Stat for a modelled directory.
@@ -149,8 +184,9 @@ func Assert(c bool, label string) {
 	}
 }
 
-func Reach(label string)  {}
-func Option(name string)  {}
+func Reach(label string) {}
+func Option(name string) {}
+
 // SetCwd sets the working directory seen by filepath.Abs: a model variable under
 // gosym, a real chdir (directory created if needed) natively.
 func SetCwd(dir string) {
@@ -161,10 +197,10 @@ func SetCwd(dir string) {
 		panic(err)
 	}
 }
-func IsSymbolic() bool    { return false }
-func RaceFree(label string) {}
+func IsSymbolic() bool               { return false }
+func RaceFree(label string)          {}
 func MapOrderAdversarial(tag string) {}
-func MapOrderDefault()     {}
+func MapOrderDefault()               {}
 
 // Replace substitutes spec for the named function under gosym (a verified
 // summary or an environment stub); natively the real function runs.
@@ -258,6 +294,11 @@ func RunRegistered(name string) (fails []string, assumeFailed bool, panicked int
 	Failures = nil
 	AssumeFailed = false
 	guards = nil
+	// the processor count is part of the environment gosym quantifies over
+	load()
+	if v, ok := model["env_gomaxprocs"]; ok && v >= 1 && v <= 256 {
+		defer runtime.GOMAXPROCS(runtime.GOMAXPROCS(int(v)))
+	}
 	func() {
 		defer func() {
 			if r := recover(); r != nil {
